@@ -402,7 +402,9 @@ def build_model():
     if not os.path.exists(ml):
         return False, "extraction did not produce ocaml/validate_model.ml\n" + out[-3000:]
     os.makedirs(os.path.dirname(DRIVER), exist_ok=True)
-    srcs = [os.path.join(ocaml_dir(), f) for f in ("validate_model.mli", "validate_model.ml", "validate_driver.ml")]
+    # the extracted model sits next to the Coq directory in use (a private copy for scratch trees); the driver is ours
+    srcs = [os.path.join(ocaml_dir(), f) for f in ("validate_model.mli", "validate_model.ml")] + \
+           [os.path.join(common.VERIF, "ocaml", "validate_driver.ml")]
     if os.path.exists(DRIVER) and os.path.getmtime(DRIVER) > max(os.path.getmtime(s) for s in srcs):
         return okc, "driver up to date"
     bdir = os.path.join(WORK, "ocaml")
